@@ -409,16 +409,20 @@ pub struct GenCfg {
     pub psd_max: usize,
     pub soc_max: usize,
     pub magnitude: f64, // entries of A bounded by this
+    /// probability that planted points sit close to the cone boundary (margins 1e-4..1e-1)
+    pub near_prob: f64,
+    /// allow power-cone exponents within 1e-3 of 0 or 1
+    pub extreme_alpha: bool,
 }
 
 impl GenCfg {
     pub fn small() -> Self {
-        GenCfg { nmax: 8, mmax: 20, allow_psd: true, allow_nonsym: true, allow_empty_cones: true, psd_max: 4, soc_max: 6, magnitude: 3.0 }
+        GenCfg { nmax: 8, mmax: 20, allow_psd: true, allow_nonsym: true, allow_empty_cones: true, psd_max: 4, soc_max: 6, magnitude: 3.0, near_prob: 0.25, extreme_alpha: true }
     }
 }
 
-pub fn gen_alpha(t: &mut Tape) -> f64 {
-    match t.weighted(&[4, 2, 1, 1]) {
+pub fn gen_alpha(t: &mut Tape, extreme: bool) -> f64 {
+    match t.weighted(&[4, 2, if extreme { 1 } else { 0 }, if extreme { 1 } else { 0 }]) {
         0 => t.uniform(0.1, 0.9),
         1 => t.choose(&[0.5, 0.25, 0.75, 1.0 / 3.0]),
         2 => t.log_uniform(1e-3, 0.1),
@@ -472,7 +476,7 @@ pub fn gen_cones(t: &mut Tape, cfg: &GenCfg) -> Vec<ConeSpec> {
             1 => ConeSpec::Nonneg(t.usize_in(1, 5)),
             2 => ConeSpec::Soc(t.usize_in(1, cfg.soc_max)),
             3 => ConeSpec::Exp,
-            4 => ConeSpec::Pow(gen_alpha(t)),
+            4 => ConeSpec::Pow(gen_alpha(t, cfg.extreme_alpha)),
             5 => {
                 let d1 = t.usize_in(1, 3);
                 ConeSpec::GenPow(gen_alpha_vec(t, d1), t.usize_in(0, 3))
@@ -568,7 +572,7 @@ pub fn gen_feasible_with(t: &mut Tape, cfg: &GenCfg, n: usize, cones: Vec<ConeSp
         let j = t.below(m);
         a[i] = a[j].clone();
     }
-    let near = t.chance(0.25);
+    let near = t.chance(cfg.near_prob);
     let p = gen_p(t, n);
     let xs: Vec<f64> = (0..n).map(|_| t.nice(1.5)).collect();
     let mut s = vec![];
